@@ -153,6 +153,18 @@ func zzFixtureAttached(attachedToRef, activityId string) bool {
 	return strings.HasSuffix(attachedToRef, activityId)
 }
 `, "zzFixtureAttached"},
+	{"R207", "pkg/timer/zz_fixture_r207.go", `package timer
+
+import (
+	"context"
+	"time"
+)
+
+func zzFixtureTooLate(ctx context.Context, due time.Time) bool {
+	deadline, ok := ctx.Deadline()
+	return ok && deadline.Before(due)
+}
+`, "zzFixtureTooLate"},
 }
 
 // checkFixtures runs the zero-expected rules among ids on the fixture program and returns one obligation per rule.
